@@ -781,7 +781,7 @@ func computeTrackBreadth(computer *ComputedStyle, value pr.DimOrS) pr.DimOrS {
 		if value.Unit == pr.Fr {
 			return value
 		} else {
-			return length_(computer, value, 0, false)
+			return length_(computer, value, -1, false)
 		}
 	}
 }
@@ -819,8 +819,9 @@ func gridTemplate(computer *ComputedStyle, _ pr.KnownProp, _value pr.CssProperty
 
 // Compute the “grid-auto-*“ properties.
 func gridAuto(computer *ComputedStyle, _ pr.KnownProp, _value pr.CssProperty) pr.CssProperty {
-	values := _value.(pr.GridAuto)
-	for i, value := range values {
+	// the declared value is shared between elements: do not write into it
+	values := make(pr.GridAuto, len(_value.(pr.GridAuto)))
+	for i, value := range _value.(pr.GridAuto) {
 		values[i] = computeGridDims(computer, value)
 	}
 	return values
